@@ -109,19 +109,7 @@ def handlePure (op : String) (j : Json) : Except String Json := do
     | some v => return Json.mkObj [("ok", true), ("vid", hex v)]
     | none => return Json.mkObj [("ok", false)]
   | "hwDetails" =>
-    let sans ← (← getArr j "sans").toList.mapM fun e => do
-      match e.getObjVal? "names" with
-      | .ok (Json.arr ns) =>
-        let names ← ns.toList.mapM fun n => do
-          let rdn ← match n.getObjVal? "rdn" with
-            | .ok (Json.arr as) => do
-              let attrs ← as.toList.mapM fun a => do
-                return (⟨← parseOid (← a.getObjVal? "oid"), ← getBool a "isString", ← getHex a "value"⟩ : Tpm.Attr)
-              pure (some attrs)
-            | _ => pure none
-          return (⟨← getNat n "cls", ← getNat n "tag", rdn⟩ : Tpm.GeneralName)
-        return Tpm.SanExt.names names
-      | _ => return Tpm.SanExt.bad
+    let sans ← parseSans j
     match Tpm.detailsFromSan sans with
     | some d => return Json.mkObj [("ok", true), ("vendorId", hex d.vendorId), ("vendorName", d.vendorName), ("part", hex d.partNumber), ("fw", hex d.firmwareVersion)]
     | none => return Json.mkObj [("ok", false)]
